@@ -1188,6 +1188,28 @@ func rulesC10(w *World, r *Report) {
 			}
 		}
 	}
+	// what is read is what the glob matched: readWhisperFileLocal is given an element of the match list, never the pattern
+	if sl := fn(w.Cmd, "sumWhisperFileLocal"); sl != nil {
+		rl := fn(w.Cmd, "readWhisperFileLocal")
+		bad := ""
+		n := 0
+		check := func(g *ssa.Function) {
+			for _, c := range callsTo(g, rl) {
+				n++
+				a := newExprCtx(w).expr(c.Common().Args[0])
+				if !(strings.Contains(a, "path/filepath.Glob(") && strings.Contains(a, ")#0[")) && bad == "" {
+					bad = "readWhisperFileLocal is given " + shortExpr(a) + " at " + w.instrPos(c) + ", not a name from the match list"
+				}
+			}
+		}
+		check(sl)
+		for _, g := range sl.AnonFuncs {
+			check(g)
+		}
+		if n > 0 {
+			r.Check(bad == "", "C10.R2", "sumWhisperFileLocal:reads-matched-files", w.pos(sl.Pos()), "each file read is an element of filepath.Glob's result", "sumWhisperFileLocal: "+bad+": a pattern with glob characters that matches one file is opened as a file name and reported as not existing")
+		}
+	}
 	// every matched file gets a worker and a slot of its own: the loop that starts the readers runs over the very list
 	// whose length sizes the header and series lists (reading a sub-list with indexes of its own lets later batches
 	// overwrite the slots of the first and leaves the rest empty)
